@@ -43,6 +43,9 @@ def park1(ctx: Ctx, chk) -> None:
         writes = [n for n in ctx.own_nodes(f) if isinstance(n, ast.Call) and norm(n.func).endswith("transport.write")]
         # path enumeration: every entry->exit normal path has exactly one event
         store_stmts = {id(sb._stmt(ctx, f, s[0])) for s in stores}
+        # refreshing the entry parked under the same key with the new message's payload is a park event too
+        refresh = [u for u in sb.inplace_updates(ctx, f, "set_messages") if u[2] == "payload" and isinstance(u[0], ast.Assign) and cn.canon(u[0].value) == "In.payload"]
+        store_stmts |= {id(u[0]) for u in refresh}
         write_stmts = {id(sb._stmt(ctx, f, w)) for w in writes}
         paths = _paths(g)
         chk.instance(rule)
@@ -68,7 +71,7 @@ def park1(ctx: Ctx, chk) -> None:
             kc = cn.canon(key_e) if key_e is not None else "?"
             if kc != "(In.node_id, In.child_id, In.message_type)":
                 probs.append(f"the buffer key is {kc}, not (node, child, type) of the sent message")
-            if val_e is None or cn.canon(val_e) != "In":
+            if val_e is None or not sb.is_message_or_copy(cn.canon(val_e)):
                 probs.append(f"the parked value is `{norm(val_e) if val_e is not None else '?'}`, not the sent message")
             if probs:
                 chk.refute(rule, k, "; ".join(probs), ctx.loc(f, st))
@@ -78,6 +81,8 @@ def park1(ctx: Ctx, chk) -> None:
             chk.instance(rule)
             snode = g.nodes_of(sb._stmt(ctx, f, st))
             tests = [t for t in g.nodes if t.kind == "test" and all(g.dominates(t, s) for s in snode)]
+            # inner tests that only choose between storing and refreshing the entry are not part of the parking decision
+            tests = [t for t in tests if "set_messages" not in norm(t.ast) and not any(isinstance(x, ast.Name) and x.id in sb.entry_names(ctx, f, "set_messages") for x in ast.walk(t.ast))]
             k2 = fkey(f, st) + "::condition"
             if len(tests) != 1:
                 raise AnalysisError(f"PARK-1: parking condition shape not recognised in {f.fq}")
@@ -202,9 +207,23 @@ def flush_node(ctx: Ctx, chk) -> None:
         filt = None
         src = sb.snapshot_source(ctx, fl)
         cands: list[ast.expr] = []
-        if isinstance(src, (ast.DictComp, ast.ListComp, ast.GeneratorExp, ast.SetComp)):
-            for gen in src.generators:
-                cands += gen.ifs
+        # follow the local definitions the loop's iterable is built from (snapshot of keys -> popped values -> loop)
+        seen_defs = set()
+        work = [src] if src is not None else []
+        while work:
+            d = work.pop()
+            if d is None or id(d) in seen_defs:
+                continue
+            seen_defs.add(id(d))
+            for comp in [x for x in ast.walk(d) if isinstance(x, (ast.DictComp, ast.ListComp, ast.GeneratorExp, ast.SetComp))]:
+                for gen in comp.generators:
+                    cands += gen.ifs
+            for nm in [x.id for x in ast.walk(d) if isinstance(x, ast.Name)]:
+                la = ctx.I.local_assigns(f).get(nm) or []
+                if len(la) == 1 and isinstance(la[0], ast.expr):
+                    work.append(la[0])
+        if False:
+            pass
             comp_val = None
             if isinstance(src, ast.DictComp) and len(src.generators) == 1 and isinstance(src.generators[0].target, ast.Tuple):
                 comp_key, comp_val = [norm(x) for x in src.generators[0].target.elts]
@@ -248,8 +267,9 @@ def flush_once(ctx: Ctx, chk) -> None:
             if not isinstance(ctx.prog.parents.get(call), ast.Await):
                 chk.refute(rule, fkey(f, call) + "::awaited", "the re-send coroutine is not awaited: nothing is written", ctx.loc(f, call))
         chk.instance(rule)
-        if fl.removes and all(sb._inside(fl.loop, r.ast) for r in fl.removes):
-            chk.ok(rule, f"{f.fq}::removal", "the written entry is removed inside the loop (not written again at the next wake)", ctx.loc(f, fl.removes[0].ast))
+        keyed = [x for x, key in sb.removal_sites(ctx, f, "set_messages") if key is not None]
+        if keyed:
+            chk.ok(rule, f"{f.fq}::removal", "written entries are removed by key (not written again at the next wake)", ctx.loc(f, keyed[0]))
         else:
             chk.refute(rule, f"{f.fq}::removal", "the flush does not remove the entries it writes: every later wake writes the same commands again", ctx.loc(f, fl.loop))
     sb.none_propagation(ctx, chk, rule)
